@@ -20,11 +20,19 @@ out.append("## 12. Independently seeded property-breaking changes (`seeded/`)\n\
            "Produced by sub-agents that saw only the property text and a scratch worktree (never /verif). Each was confirmed "
            "(`tools/seed_eval.sh`: demo passes on the clean tree and fails with the patch, the touched existing tests are "
            "unchanged) and then run against the check (`VERIF_REPO=<worktree> ./check Cxx --tier quick`).\n\n"
-           "| seed | property | needs to manifest | caught | concrete replay |\n|---|---|---|---|---|\n")
+           "Rounds: `Cxx-1..3` round 1, `Cxx-r1..r3` round 2, `Cxx-t1..t3` round 3, `Cxx-u1..u2` round 4. *first run* = outcome "
+           "of the check as it stood when the change arrived; a miss was turned into a strengthening of the generator / "
+           "oracle / model (column *strengthening*; for rounds 1-2 it is written into *needs to manifest*) and re-run "
+           "(`tools/seed_reeval.sh`).\n\n"
+           "| seed | property | needs to manifest | first run | caught now | concrete replay | strengthening / later status |\n|---|---|---|---|---|---|---|\n")
 for f in sorted((V / "seeded").glob("*/meta.json")):
     m = json.loads(f.read_text())
-    out.append(f"| {m['id']} | {m['breaks_property']} | {m['needs_to_manifest']} | {'yes' if m['check_outcome']['caught'] else '**no**'} | "
-               f"{'yes' if m['check_outcome']['with_concrete_replay'] else 'no'} |\n")
+    first = m.get('first_outcome')
+    first_s = ('missed' if not first['caught'] else 'caught') if first else (
+        'missed' if ('missed at first' in m['needs_to_manifest'] or not m['check_outcome']['caught']) else 'caught')
+    note = (m.get('strengthening', '') + ' ' + str(m.get('later_status', '') or '')).strip().replace('|', '/')
+    out.append(f"| {m['id']} | {m['breaks_property']} | {m['needs_to_manifest'].replace('|', '/')} | {first_s} | {'yes' if m['check_outcome']['caught'] else '**no**'} | "
+               f"{'yes' if m['check_outcome']['with_concrete_replay'] else 'no'} | {note} |\n")
 # ---- §13: last evidence per property
 out.append("\n## 13. What the last committed quick run covered (from `evidence/*.json`)\n\n"
            "| property | theorems (obligations = discharged) | translated functions | cases | distinct non-trivial | compared in Coq | known findings hit | wall s |\n|---|---|---|---|---|---|---|---|\n")
